@@ -231,7 +231,7 @@ void SSA::build_bwt() {
   if (samplesuff > 0) {
     uint j = 0;
     uint *sampled_vector = new uint[uint_len(n + 2, 1)];
-    suff_sample = new uint[(n + 1) / samplesuff + 1];
+    suff_sample = new uint[(n + 1) / samplesuff + 1]();
     for (uint i = 0; i < uint_len(n + 1, 1); i++)
       sampled_vector[i] = 0;
     for (uint i = 0; i < n + 1; i++) {
